@@ -28,7 +28,7 @@ ASSUMPTIONS = [
     'references are judged through resolveName, Class.baseobjects and the href of rendered links',
 ]
 FLOOR = {'quick': 1000, 'thorough': 5000}
-SPACE = {'quick': '4 kinds x 5 re-exporter / definer namings (package, sibling, sibling whose name begins with the object name, object defined in the package __init__) x 3 forms x 4 origin variants x 6 consumers x 2 docformats x 6 schedules + 48 full driver runs',
+SPACE = {'quick': '4 kinds x 5 re-exporter / definer namings (package, sibling, sibling whose name begins with the object name, object defined in the package __init__) x 3 forms x 4 origin variants x 10 consumers x 2 docformats x 6 schedules + 48 full driver runs',
          'thorough': 'quick + all unordered pairs of consumers (4 modules, 24 schedules)'}
 
 OBJ = {
@@ -56,7 +56,9 @@ def set_naming(rex: str) -> Tuple[str, str]:
     return ('init' if rex == 'init' else 'sibling'), (rex.split(':')[1] if ':' in rex else 'rx')
 
 
-CONSUMERS = ['definer', 'reexporter', 'modattr-definer', 'modattr-reexporter', 'star-definer', 'star-reexporter']
+CONSUMERS = ['definer', 'reexporter', 'modattr-definer', 'modattr-reexporter', 'star-definer', 'star-reexporter',
+             # the dotted name written out at every use (no local alias); the same local name imported from both locations, in both orders
+             'dotted-definer', 'dotted-reexporter', 'both-definer-first', 'both-reexporter-first']
 
 
 def xref(fmt: str, name: str) -> str:
@@ -77,6 +79,16 @@ def consumer_src(cname: str, consumer: str, kind: str, target_mod: str, exported
     elif consumer == 'star-definer':
         imp = 'from p._impl import *\n'
         L = 'O'
+    elif consumer == 'dotted-definer':
+        imp = 'import p._impl\n'
+        L = 'p._impl.O'
+    elif consumer == 'dotted-reexporter':
+        imp = f'import {target_mod}\n'
+        L = f'{target_mod}.{exported}'
+    elif consumer == 'both-definer-first':
+        imp = f'from p._impl import O as {L}\nfrom {target_mod} import {exported} as {L}\n'
+    elif consumer == 'both-reexporter-first':
+        imp = f'from {target_mod} import {exported} as {L}\nfrom p._impl import O as {L}\n'
     else:
         imp = f'from {target_mod} import *\n'
         L = exported
@@ -103,11 +115,14 @@ def program(kind: str, rex: str, form: str, origin: str, consumers: Sequence[str
         for k in list(mods):
             mods[k] = (mods[k].replace('from ._impl import', 'from p import').replace('from p._impl import', 'from p import').replace('import p._impl\n', 'import p\n')
                        .replace('p._impl.O', 'p.O'))
+    if naming.startswith('initdef'):
+        cons = [(n, c, L.replace('p._impl.O', 'p.O')) for n, c, L in cons]
     if rxname != 'rx':
         mods[rxname] = mods.pop('rx')
         for k in list(mods):
             mods[k] = mods[k].replace('p.rx', f'p.{rxname}').replace('import rx as', f'import {rxname} as')
         new_full = new_full.replace('p.rx', f'p.{rxname}')
+        cons = [(n, c, L.replace('p.rx', f'p.{rxname}')) for n, c, L in cons]
     return mods, new_full, cons
 
 
@@ -182,6 +197,8 @@ def judge_build(s: Any, kind: str, new_full: str, cons: Sequence[Tuple[str, str,
     if found is not O:
         probs.append(('old-qualified-name-does-not-lead-to-object', '-'))
     for cname, ctype, L in cons:
+        # imported from both locations: the LAST import binds the name, so the case is judged (and named) like that consumer type
+        ctype = {'both-reexporter-first': 'definer', 'both-definer-first': 'reexporter'}.get(ctype, ctype) + ('/after-both-imports' if ctype.startswith('both') else '')
         c = s.allobjects[f'p.{cname}']
         if c.resolveName(L) is not O:
             probs.append(('local-name-unresolved', ctype))
